@@ -6,6 +6,7 @@
 //!   op = 'L'<depth>  layer: address, hash, centre, neighbours, n_hash through get_or_create(depth)
 //!      | 'C'<depth>  cell-size constants of that depth (three latitude regimes)
 //!      | 'K'<depth>  small cone coverage at that depth (uses both tables)
+//!      | 'S'<depth>  1500 cones smaller than a cell at that depth (layers d..d+4, no recursion)
 //! Output: one line per op result "t<thread> <op> <values>", then "count L<d>=<k>" / "count C<d>=<k>".
 
 use cdshealpix::nested;
@@ -49,6 +50,26 @@ fn run_op(op: &str) -> String {
         acc = (acc ^ *e).wrapping_mul(1099511628211);
       }
       format!("cone_entries={} digest={:x}", b.entries.len(), acc)
+    }
+    "S" => {
+      // many cones smaller than a cell (the branch without recursion: centre cell + neighbours taken at the
+      // starting depth of the radius, i.e. through the layers of depth d .. d+4), radii alternating between
+      // four starting-depth classes, centres walking around the sphere: a hot loop that other threads run
+      // at the same time with other depths
+      let rounds: u32 = if cfg!(miri) { 3 } else { 1500 };
+      let mut acc: u64 = 1469598103934665603;
+      for it in 0..rounds {
+        let k = (it % 4) as u8;
+        let r = 0.4 / (1u64 << (d + k).min(29)) as f64;
+        let lon = 0.1 + 0.37 * it as f64 % 6.0;
+        let lat = -1.2 + 0.0016 * (it % 1500) as f64;
+        let b = nested::cone_coverage_approx(d, lon, lat, r);
+        for e in b.entries.iter() {
+          acc = (acc ^ *e).wrapping_mul(1099511628211);
+        }
+        acc = (acc ^ b.entries.len() as u64).wrapping_mul(1099511628211);
+      }
+      format!("small_cones={} digest={:x}", rounds, acc)
     }
     _ => panic!("unknown op {}", op),
   }
